@@ -78,6 +78,22 @@ def run(tier, replay=None):
                 chk.violation("layout:%s:%s" % (family(c['id']), re.sub(r'\d+', 'N', v['layout'])),
                               "hexasm output for %s violates the layout contract: %s" % (c['id'], v['layout']),
                               {"case.S": c['src'], "prog.json": json.dumps(asmlib.strip(c['prog']))})
+        # mechanism conformance (drift grade): the code's relaxation passes are AsmRelax's passes at radix 16
+        rr = asmlib.relax_records(cases, res, vlib.rng(55), 1200 if tier == "quick" else 20000)
+        if rr:
+            can2 = json.loads(json.dumps(rr[0])); can2['id'] = 'canary'; can2['passes'][-1]['total'] += 1
+            rf = os.path.join(d, "relax.ndjson"); vlib.write_ndjson(rf, rr + [can2])
+            files = vlib.split_file(rf, vlib.NCPU, d, "rx")
+            outs = vlib.tlc_fold("AsmRelaxV", "AsmRelaxV.cfg", [f for f, _ in files], heap="3g")
+            rv = [v for o, r_ in outs for v in o]
+            if rv[-1]['v'] == "":
+                raise vlib.MachineryError("relaxation canary accepted: the mechanism binding is not live")
+            drift = [v for v in rv[:-1] if v['v'] != ""]
+            chk.set("relaxation_runs_matching_AsmRelax_pass_by_pass", len(rv) - 1 - len(drift))
+            chk.set("relaxation_passes_validated", sum(v['passes'] for v in rv[:-1]))
+            chk.set("DRIFT_relaxation_runs_differing_from_AsmRelax", len(drift))
+            if drift:
+                chk.set("drift_examples", drift[:3])
         chk.add("programs_assembled", len(keep))
         chk.add("programs_layout_ok", ok)
         chk.add("programs_rejected_unaligned_abs", nrej)
